@@ -167,13 +167,13 @@ int main(int argc, char **argv) {
       std::vector<uint32_t> prefix; prefix.push_back((uint32_t)(ts >> 32)); prefix.push_back((uint32_t)ts); prefix.push_back((uint32_t)i);
       write_current(prefix, ts);
       CaseResult r = run_one(prefix, ts, true);
-      if (r.failed) {
+      if (r.failed) { // indices are independent: keep going, report each distinct signature once
         g_st.failures++;
-        CaseResult best = r; std::vector<uint32_t> m = r.used;
-        // keep the index fixed, shrink only the rest
-        m = shrink_case(r.used, r.sig, shrink_budget, best);
+        bool seen = false; for (auto &f : fails) if (f.sig == r.sig) seen = true;
+        if (seen) continue;
+        CaseResult best = r; std::vector<uint32_t> m = shrink_case(r.used, r.sig, shrink_budget, best);
         fails.push_back(best); fail_prefix.push_back(m);
-        break;
+        if (fails.size() >= 12) break;
       }
     }
   } else {
